@@ -41,7 +41,7 @@ Theorem completed_implies_inv cls invs s o s1 r :
   s_enabled s = true -> step cls invs s o = (s1, r) -> completed r = true ->
   match o with OSet _ _ | OCall _ _ _ => all_hold cls invs s1 | _ => True end.
 Proof.
-  intros He H Hc. destruct o as [n v|sets raises ret|ret|b]; try exact I; cbn in H.
+  intros He H Hc. destruct o as [n v|sets raises ret|ret|b|body raises ret]; try exact I; cbn in H.
   - inversion H; subst. destruct (check cls invs (set_attr s n v)) eqn:E; [rewrite (check_not_ok _ _ _ _ E) in Hc; discriminate|].
     apply check_none; [exact He|exact E].
   - destruct (check cls invs s) eqn:E0; [inversion H; subst; rewrite (check_not_ok _ _ _ _ E0) in Hc; discriminate|].
@@ -72,10 +72,10 @@ Proof. reflexivity. Qed.
 (* (5) while contracts are disabled nothing is validated: every operation completes *)
 Theorem disabled_inert cls invs s o s1 r :
   s_enabled s = false -> step cls invs s o = (s1, r) ->
-  match o with OCall _ true _ => r = Exc "ValueError" | _ => completed r = true end.
+  match o with OCall _ true _ => r = Exc "ValueError" | OCallB _ _ _ => r = Exc "ValueError" \/ completed r = true | _ => completed r = true end.
 Proof.
   intros He H. assert (Hc : forall t, s_enabled t = false -> check cls invs t = None) by (intros t Ht; unfold check; rewrite Ht; reflexivity).
-  destruct o as [n v|sets raises ret|ret|b]; cbn in H.
+  destruct o as [n v|sets raises ret|ret|b|body raises ret]; cbn in H.
   - rewrite (Hc (set_attr s n v) He) in H. inversion H; reflexivity.
   - rewrite (Hc s He) in H.
     assert (Hs : forall l t, s_enabled t = false -> exists t', run_sets cls invs t l = (t', None) /\ s_enabled t' = false).
@@ -85,4 +85,101 @@ Proof.
     destruct raises; [inversion H; reflexivity|]. rewrite (Hc t' Ht') in H. inversion H; reflexivity.
   - inversion H; reflexivity.
   - inversion H; reflexivity.
+  - rewrite (Hc s He) in H.
+    assert (Hi : forall l t, s_enabled t = false -> exists t', run_inner_items cls invs t l = (t', None) /\ s_enabled t' = false).
+    { induction l as [|[raw [n v]] l IH]; intros t Ht; cbn [run_inner_items]; [eexists; split; [reflexivity|exact Ht]|].
+      destruct raw; [apply IH; exact Ht|]. rewrite (Hc (set_attr t n v) Ht). apply IH. exact Ht. }
+    assert (Hb : forall l t, s_enabled t = false -> exists t' e, run_body cls invs t l = (t', e) /\ s_enabled t' = false /\ (e = None \/ e = Some (Exc "ValueError"))).
+    { induction l as [|[n v|n v|items rs] l IH]; intros t Ht; cbn [run_body].
+      - exists t, None. auto.
+      - rewrite (Hc (set_attr t n v) Ht). apply IH. exact Ht.
+      - apply IH. exact Ht.
+      - unfold inner_call. rewrite (Hc t Ht). destruct (Hi items t Ht) as (t' & Et & Ht'). rewrite Et.
+        destruct rs; [exists t', (Some (Exc "ValueError")); auto|]. rewrite (Hc t' Ht'). apply IH. exact Ht'. }
+    destruct (Hb body s He) as (t' & e & Eb & Ht' & [->| ->]); rewrite Eb in H.
+    + destruct raises; [inversion H; left; reflexivity|]. rewrite (Hc t' Ht') in H. inversion H; right; reflexivity.
+    + inversion H; left; reflexivity.
 Qed.
+
+(* ---- nested calls through self and stores that no __setattr__ sees ---- *)
+Lemma run_inner_items_enabled cls invs l : forall s s1 r, run_inner_items cls invs s l = (s1, r) -> s_enabled s1 = s_enabled s.
+Proof.
+  induction l as [|[raw [n v]] t IH]; intros s s1 r H; cbn [run_inner_items] in H; [inversion H; reflexivity|].
+  destruct raw; [apply IH in H; exact H|].
+  destruct (check cls invs (set_attr s n v)); [inversion H; reflexivity|apply IH in H; exact H].
+Qed.
+Lemma inner_call_enabled cls invs s items rs s1 r : inner_call cls invs s items rs = (s1, r) -> s_enabled s1 = s_enabled s.
+Proof.
+  unfold inner_call. destruct (check cls invs s); [intro H; inversion H; reflexivity|].
+  destruct (run_inner_items cls invs s items) as [s2 [e|]] eqn:E; intro H.
+  - inversion H; subst. eapply run_inner_items_enabled; exact E.
+  - destruct rs; inversion H; subst; eapply run_inner_items_enabled; exact E.
+Qed.
+Lemma run_body_enabled cls invs l : forall s s1 r, run_body cls invs s l = (s1, r) -> s_enabled s1 = s_enabled s.
+Proof.
+  induction l as [|[n v|n v|items rs] t IH]; intros s s1 r H; cbn [run_body] in H.
+  - inversion H; reflexivity.
+  - destruct (check cls invs (set_attr s n v)); [inversion H; reflexivity|apply IH in H; exact H].
+  - apply IH in H; exact H.
+  - destruct (inner_call cls invs s items rs) as [s2 [e|]] eqn:E.
+    + inversion H; subst. eapply inner_call_enabled; exact E.
+    + apply IH in H. rewrite H. eapply inner_call_enabled; exact E.
+Qed.
+Lemma run_inner_items_err cls invs l : forall s s1 e, run_inner_items cls invs s l = (s1, Some e) -> completed e = false.
+Proof.
+  induction l as [|[raw [n v]] t IH]; intros s s1 e H; cbn [run_inner_items] in H; [discriminate|].
+  destruct raw; [eapply IH; exact H|].
+  destruct (check cls invs (set_attr s n v)) eqn:E; [inversion H; subst; eapply check_not_ok; exact E|eapply IH; exact H].
+Qed.
+Lemma inner_call_err cls invs s items rs s1 e : inner_call cls invs s items rs = (s1, Some e) -> completed e = false.
+Proof.
+  unfold inner_call. destruct (check cls invs s) eqn:E0; [intro H; inversion H; subst; eapply check_not_ok; exact E0|].
+  destruct (run_inner_items cls invs s items) as [s2 [x|]] eqn:E; intro H.
+  - inversion H; subst. eapply run_inner_items_err; exact E.
+  - destruct rs; [inversion H; reflexivity|]. inversion H as [[Hs Hc]]. eapply check_not_ok; exact Hc.
+Qed.
+Lemma run_body_err cls invs l : forall s s1 e, run_body cls invs s l = (s1, Some e) -> completed e = false.
+Proof.
+  induction l as [|[n v|n v|items rs] t IH]; intros s s1 e H; cbn [run_body] in H; [discriminate| | |].
+  - destruct (check cls invs (set_attr s n v)) eqn:E; [inversion H; subst; eapply check_not_ok; exact E|eapply IH; exact H].
+  - eapply IH; exact H.
+  - destruct (inner_call cls invs s items rs) as [s2 [x|]] eqn:E; [inversion H; subst; eapply inner_call_err; exact E|eapply IH; exact H].
+Qed.
+
+(* (1b) a method call with nested calls and unseen stores that completes leaves every invariant true *)
+Theorem callb_completed_implies_inv cls invs s body raises ret s1 r :
+  s_enabled s = true -> step cls invs s (OCallB body raises ret) = (s1, r) -> completed r = true -> all_hold cls invs s1.
+Proof.
+  intros He H Hc. cbn [step] in H.
+  destruct (check cls invs s) eqn:E0; [inversion H; subst; rewrite (check_not_ok _ _ _ _ E0) in Hc; discriminate|].
+  destruct (run_body cls invs s body) as [s2 [e|]] eqn:Er; [inversion H; subst; rewrite (run_body_err _ _ _ _ _ _ Er) in Hc; discriminate|].
+  destruct raises; [inversion H; subst; discriminate|].
+  inversion H; subst. destruct (check cls invs s1) eqn:E1; [rewrite (check_not_ok _ _ _ _ E1) in Hc; discriminate|].
+  apply check_none; [rewrite (run_body_enabled _ _ _ _ _ _ Er); exact He|exact E1].
+Qed.
+(* (1c) the same for every nested call made through self: when it returns, every invariant is true -- whatever the outer method does
+   afterwards (an outer method that repairs the state later does not make the inner call acceptable) *)
+Theorem inner_completed_implies_inv cls invs s items s1 :
+  s_enabled s = true -> inner_call cls invs s items false = (s1, None) -> all_hold cls invs s1.
+Proof.
+  intros He H. pose proof (inner_call_enabled _ _ _ _ _ _ _ H) as Hen. unfold inner_call in H.
+  destruct (check cls invs s); [discriminate|].
+  destruct (run_inner_items cls invs s items) as [s2 [e|]] eqn:E; [discriminate|].
+  inversion H as [[Hs Hc]]. subst s2. apply check_none; [rewrite Hen; exact He|exact Hc].
+Qed.
+(* (2b) a nested call is not entered when an invariant is already false, and its failure ends the outer method at that point *)
+Theorem inner_not_entered_when_broken cls invs s items rs e t :
+  check cls invs s = Some e -> run_body cls invs s (BInner items rs :: t) = (s, Some e).
+Proof. intro H. cbn [run_body]. unfold inner_call. rewrite H. reflexivity. Qed.
+Theorem callb_not_entered_when_broken cls invs s body raises ret e :
+  check cls invs s = Some e -> step cls invs s (OCallB body raises ret) = (s, e).
+Proof. intro H. cbn [step]. rewrite H. reflexivity. Qed.
+(* a store that no __setattr__ sees is judged at the next validation point: here, the exit of the method *)
+Example raw_store_caught_at_exit :
+  step [] [{| i_form := IExplicit; i_pred := PGe "x" 0 |}] {| s_inst := [("x", VInt 1)]; s_enabled := true |} (OCallB [BRaw "x" (VInt (-1))] false 7)
+  = ({| s_inst := [("x", VInt (-1))]; s_enabled := true |}, InvError).
+Proof. reflexivity. Qed.
+Example inner_violation_not_repairable :
+  snd (step [] [{| i_form := IExplicit; i_pred := PGe "x" 0 |}] {| s_inst := [("x", VInt 1)]; s_enabled := true |}
+            (OCallB [BInner [(true, ("x", VInt (-1)))] false; BRaw "x" (VInt 1)] false 7)) = InvError.
+Proof. reflexivity. Qed.
